@@ -3,10 +3,62 @@
   `refcount`, `sharedprov`) and the executable specifications over histories.  Import-free.
 
   Sink ids on the wire are 1-based (creation order); 0 stands for "no sink".
+
+  Every component is registered in its *guarded* form (`guarded`): the implementation's outcome
+  of an operation is either an observation or `(raised <TypeName>)` — an exception that escaped
+  the real code where the model predicts a normal outcome.  The model never raises; the
+  specification judges a raised outcome as a failure (clause `raised`): an operation that ends
+  in an exception did not share / open / close / hand out anything.
 -/
 import ScalesModel.Core.Run
 import ScalesModel.Model.Shared
 namespace Scales.Shared
+
+/-! ## outcomes: an observation, or an exception that escaped the implementation -/
+
+inductive Res (α : Type) where
+  | val (x : α)
+  | raised (what : String)
+  deriving Repr, DecidableEq
+
+/-- the observations before the first raised outcome -/
+def valPrefix {Op Obs : Type} : List (Op × Res Obs) → List (Op × Obs)
+  | (op, .val o) :: rest => (op, o) :: valPrefix rest
+  | _ => []
+
+/-- the first raised outcome: its position and the exception's type name -/
+def firstRaised {Op Obs : Type} (idx : Nat) : List (Op × Res Obs) → Option (Nat × String)
+  | [] => none
+  | (_, .val _) :: rest => firstRaised (idx + 1) rest
+  | (_, .raised w) :: _ => some (idx, w)
+
+/-- a specification over observations, extended to outcomes: the history up to the first raised
+    outcome must satisfy it, and no outcome may be an escaped exception -/
+def guardSpec {Op Obs : Type} (spec : List (Op × Obs) → Verdict) (h : List (Op × Res Obs)) : Verdict :=
+  (spec (valPrefix h)).and (fun _ =>
+    match firstRaised 0 h with
+    | some (i, w) => .fail "raised" [V.ofNat i, .a w]
+    | none => .ok)
+
+def encRes {Obs : Type} (enc : Obs → V) : Res Obs → V
+  | .val o => enc o
+  | .raised w => .l [.a "raised", .a w]
+
+def decRes {Obs : Type} (dec : V → Option Obs) : V → Option (Res Obs)
+  | .l [.a "raised", .a w] => some (.raised w)
+  | v => (dec v).map .val
+
+/-- the guarded form of a component: same model (it never raises), outcomes instead of
+    observations on the wire and in the specification -/
+def guarded {Cfg σ Op Obs : Type} (c : TComp Cfg σ Op Obs) : TComp Cfg σ Op (Res Obs) where
+  decCfg := c.decCfg
+  init := c.init
+  decOp := c.decOp
+  step := fun cfg s op => ((c.step cfg s op).1, .val (c.step cfg s op).2)
+  encObs := encRes c.encObs
+  decObs := decRes c.decObs
+  spec := fun cfg h => guardSpec (c.spec cfg) h
+  wf := c.wf
 
 /-! ## singleton -/
 
@@ -159,7 +211,7 @@ def decUnit : List V → Option Unit
   | [] => some ()
   | _ => none
 
-def singleton : TComp Unit Pool SOp SObs where
+def singletonCore : TComp Unit Pool SOp SObs where
   decCfg := decUnit
   init := fun _ => {}
   decOp := decSOp
@@ -168,6 +220,8 @@ def singleton : TComp Unit Pool SOp SObs where
   decObs := decSObs
   spec := specS
   wf := fun _ _ => true
+
+def singleton : TComp Unit Pool SOp (Res SObs) := guarded singletonCore
 
 /-! ## refcount -/
 
@@ -238,7 +292,7 @@ def decBoolCfg : List V → Option Bool
   | [b] => b.bool?
   | _ => none
 
-def refcount : TComp Bool RC ROp RObs where
+def refcountCore : TComp Bool RC ROp RObs where
   decCfg := decBoolCfg
   init := fun _ => {}
   decOp := decROp
@@ -248,39 +302,120 @@ def refcount : TComp Bool RC ROp RObs where
   spec := specR
   wf := fun _ _ => true
 
+def refcount : TComp Bool RC ROp (Res RObs) := guarded refcountCore
+
 /-! ## sharedprov -/
 
 structure PObs where
-  sink : Nat            -- id of the sink handed out (0 for drop)
+  sink : Nat            -- id of the sink handed out (create) / called by the holder (hopen, hclose); else 0
   shared : Bool         -- it is a RefCountedSink wrapper
   created : Nat         -- CreateSink calls seen by the next provider so far
   keys : List Nat       -- keys of the live cache entries, in the cache's order
+  fresh : Bool          -- create: the object handed out was never handed out before
+  rc : Nat              -- `_ref_count` of that wrapper after the operation (0 if it is not a wrapper)
+  views : List SinkView -- every underlying sink created so far: state, Open() calls, Close() calls
   deriving Repr, DecidableEq
+
+def pview (s : PSink) : SinkView := (s.st, s.opens, s.closes)
 
 def pstep (_ : Unit) (p : Prov) (op : POp) : Prov × PObs :=
   let r := p.step op
-  (r.1, ⟨r.2, (match op with | .create _ key => key != 0 | .drop _ => false), r.1.created,
-         r.1.cache.map (·.1)⟩)
+  (r.1, ⟨r.2, (sinkAt r.1.sinks r.2).shared, r.1.created, r.1.cache.map (·.1),
+         decide (p.created < r.1.created), (sinkAt r.1.sinks r.2).rc, r.1.sinks.map pview⟩)
 
-/-- the spec's own book-keeping: who holds which sink, obtained under which key -/
+/-- the spec's own book-keeping: who holds which sink, obtained under which key; how many
+    sinks the next provider had created; what the underlying sinks had seen; and, per shared
+    sink, the number of holders that have it open by the property's own reading of the history
+    (every Open adds one, every Close by somebody while that number is positive removes one,
+    a surplus Close removes nothing).  `cnt` is an association list, latest entry first. -/
 structure PAcc where
   holds : List Hold := []
+  created : Nat := 0
+  views : List SinkView := []
+  cnt : List (Nat × Nat) := []
   deriving Repr
+
+def cntAt (c : List (Nat × Nat)) (s : Nat) : Nat :=
+  match c with
+  | [] => 0
+  | (k, n) :: rest => if k = s then n else cntAt rest s
+
+/-- what sink `id` had seen: (Open() calls, Close() calls) -/
+def seenAt (l : List SinkView) (id : Nat) : Nat × Nat :=
+  match id with
+  | 0 => (0, 0)
+  | k + 1 => (l.getD k (.idle, 0, 0)).2
 
 def PAcc.after (a : PAcc) (op : POp) (o : PObs) : PAcc :=
   match op with
-  | .create h key => ⟨a.holds.filter (fun x => x.1 != h) ++ [(h, key, o.sink)]⟩
-  | .drop h => ⟨a.holds.filter (fun x => x.1 != h)⟩
+  | .create h key =>
+    { a with holds := a.holds.filter (fun x => x.1 != h) ++ [(h, key, o.sink)],
+             created := o.created, views := o.views }
+  | .drop h => { a with holds := a.holds.filter (fun x => x.1 != h), created := o.created, views := o.views }
+  | .hopen h =>
+    match heldBy a.holds h with
+    | some x =>
+      { a with created := o.created, views := o.views,
+               cnt := if x.2.1 = 0 then a.cnt else (x.2.2, cntAt a.cnt x.2.2 + 1) :: a.cnt }
+    | none => { a with created := o.created, views := o.views }
+  | .hclose h =>
+    match heldBy a.holds h with
+    | some x =>
+      { a with created := o.created, views := o.views,
+               cnt := if x.2.1 = 0 then a.cnt else (x.2.2, cntAt a.cnt x.2.2 - 1) :: a.cnt }
+    | none => { a with created := o.created, views := o.views }
+  | .fault _ => { a with created := o.created, views := o.views }
 
-/-- the same sharing key yields the same sink for as long as any holder is alive -/
+/-- * the same sharing key yields the same sink for as long as any holder is alive: a CreateSink
+      with a key under which a live holder holds a sink hands out that very sink (the same
+      object, not a new wrapper), and the next provider is not asked for another underlying
+      sink — whatever the state of the shared sink (`same-key`, `second-underlying`);
+    * a holder's Open()/Close() on a shared sink reaches the underlying sink exactly at the
+      transitions 0 → 1 and 1 → 0 of the number of holders that have it open; a surplus Close
+      is ignored (`first-open`, `shared-open`, `open-closes`, `close-opens`, `surplus-close`,
+      `close-last`, `close-early`). -/
 def specPObs (a : PAcc) (idx : Nat) (op : POp) (o : PObs) : Verdict :=
   match op with
   | .create _ key =>
     if key = 0 then .ok
-    else match a.holds.find? (fun x => x.2.1 == key && x.2.2 != o.sink) with
-      | some x => .fail "same-key" [V.ofNat idx, V.ofNat key, V.ofNat x.2.2, V.ofNat o.sink]
-      | none => .ok
+    else match a.holds.find? (fun x => x.2.1 == key && (x.2.2 != o.sink || o.fresh)) with
+      | some x =>
+        .fail "same-key" [V.ofNat idx, V.ofNat key, V.ofNat x.2.2, V.ofNat o.sink, V.ofBool o.fresh]
+      | none =>
+        if a.holds.any (fun x => x.2.1 == key) && o.created != a.created then
+          .fail "second-underlying" [V.ofNat idx, V.ofNat key, V.ofNat a.created, V.ofNat o.created]
+        else .ok
   | .drop _ => .ok
+  | .hopen h =>
+    match heldBy a.holds h with
+    | some x =>
+      if x.2.1 = 0 then .ok
+      else
+        let n := cntAt a.cnt x.2.2
+        let pv := seenAt a.views x.2.2
+        let nv := seenAt o.views x.2.2
+        let ps := [V.ofNat idx, V.ofNat x.2.2, V.ofNat n, V.ofNat nv.1, V.ofNat nv.2]
+        if n = 0 ∧ nv.1 ≠ pv.1 + 1 then .fail "first-open" ps
+        else if n ≠ 0 ∧ nv.1 ≠ pv.1 then .fail "shared-open" ps
+        else if nv.2 ≠ pv.2 then .fail "open-closes" ps
+        else .ok
+    | none => .ok
+  | .hclose h =>
+    match heldBy a.holds h with
+    | some x =>
+      if x.2.1 = 0 then .ok
+      else
+        let n := cntAt a.cnt x.2.2
+        let pv := seenAt a.views x.2.2
+        let nv := seenAt o.views x.2.2
+        let ps := [V.ofNat idx, V.ofNat x.2.2, V.ofNat n, V.ofNat nv.1, V.ofNat nv.2]
+        if nv.1 ≠ pv.1 then .fail "close-opens" ps
+        else if n = 0 ∧ nv.2 ≠ pv.2 then .fail "surplus-close" ps
+        else if n = 1 ∧ nv.2 ≠ pv.2 + 1 then .fail "close-last" ps
+        else if 1 < n ∧ nv.2 ≠ pv.2 then .fail "close-early" ps
+        else .ok
+    | none => .ok
+  | .fault _ => .ok
 
 def specPGo (a : PAcc) (idx : Nat) : List (POp × PObs) → Verdict
   | [] => .ok
@@ -292,14 +427,20 @@ def specP (_ : Unit) (h : List (POp × PObs)) : Verdict := specPGo {} 0 h
 def decPOp : List V → Option POp
   | [.a "create", h, k] => do pure (.create (← h.nat?) (← k.nat?))
   | [.a "drop", h] => do pure (.drop (← h.nat?))
+  | [.a "hopen", h] => do pure (.hopen (← h.nat?))
+  | [.a "hclose", h] => do pure (.hclose (← h.nat?))
+  | [.a "fault", s] => do pure (.fault (← s.nat?))
   | _ => none
 
-def encPObs (o : PObs) : V := .l [V.ofNat o.sink, V.ofBool o.shared, V.ofNat o.created, V.ofNats o.keys]
+def encPObs (o : PObs) : V :=
+  .l [V.ofNat o.sink, V.ofBool o.shared, V.ofNat o.created, V.ofNats o.keys, V.ofBool o.fresh,
+      V.ofNat o.rc, .l (o.views.map encView)]
 def decPObs : V → Option PObs
-  | .l [s, b, c, ks] => do pure ⟨← s.nat?, ← b.bool?, ← c.nat?, ← ks.natList?⟩
+  | .l [s, b, c, ks, f, rc, .l vs] => do
+    pure ⟨← s.nat?, ← b.bool?, ← c.nat?, ← ks.natList?, ← f.bool?, ← rc.nat?, ← vs.mapM decView⟩
   | _ => none
 
-def sharedprov : TComp Unit Prov POp PObs where
+def sharedprovCore : TComp Unit Prov POp PObs where
   decCfg := decUnit
   init := fun _ => {}
   decOp := decPOp
@@ -308,5 +449,7 @@ def sharedprov : TComp Unit Prov POp PObs where
   decObs := decPObs
   spec := specP
   wf := fun _ _ => true
+
+def sharedprov : TComp Unit Prov POp (Res PObs) := guarded sharedprovCore
 
 end Scales.Shared
